@@ -66,9 +66,15 @@ def dimensions_part(dimensions):
         for dim in dims.keys():
             (custom_dims if dim.startswith('dim_') else predefined_dims).append(dim)
         dim_keys = sorted(predefined_dims) + sorted(custom_dims)
-        return os.path.join(*(map(lambda k: k + "-" + str(dims.get(k, 'default')), dim_keys)))
+        return os.path.join(*(map(
+            lambda k: _dimension_dirname(k + "-" + str(dims.get(k, 'default'))), dim_keys)))
     else:
         return ""
+
+
+def _dimension_dirname(name):
+    # dimension names and values come from the request: never let them act as path separators
+    return name.replace('/', '_').replace('\\', '_')
 
 
 def level_part(level):
